@@ -220,7 +220,7 @@ PROPS = {
         trusted_base=["hdiff's per-object routines (diff_sds, diff_vs, diff_gr, gattr_diff, diff_match_dim) and hdiff_list's traversal are not modelled: the model takes the printed object lists and a per-object difference count as inputs; they are exercised by the mutation oracle",
                       "printf formatting of hdp / hdiff is parsed, not modelled (integers exactly, floats within the printed precision)",
                       "hdfimport: the model (importRun) covers format flags, option validation, SDS type, shape and the choice of reader per input file; the readers themselves, range / scale handling and the raster code (pixrep, interp) are checked on the implementation only"],
-        assumptions=["NaN-free data; floating-point values and the -t / -p limits are multiples of 1/8 (exact in float32/float64), |values| < 2^14 when -p is used (so that (float)per > err_rel is decided like the exact rational comparison); 32-bit values less than 2^31 apart (abs() of the int32 difference is defined)",
+        assumptions=["model lines (adiff / hdiff): floating-point elements are NaN (any bit pattern), +Inf, -Inf, -0.0 or multiples of 1/8; implementation oracles also use denormals and +-FLT_MAX / DBL_MAX; finite floating-point values and the -t / -p limits are multiples of 1/8 (exact in float32/float64), |values| < 2^14 when -p is used (so that (float)per > err_rel is decided like the exact rational comparison); 32-bit values less than 2^31 apart (abs() of the int32 difference is defined)",
                      "hdfimport: 1-4 input files per run in every order, ranks 2 and 3, dimensions 2..6; TEXT (-t FP32/FP64/INT32/INT16/INT8, -n, no option), FP32 / FP64 (with and without -n) / IN32 / IN16 / IN08 binary and HDF (one FLOAT32 SDS with float32 scales) input; -f, -r with -e / -i / -p / -m in every order; images only for inputs that give FLOAT32 (other types: known finding hdfimport-raster-needs-float32), with strictly increasing scales and the data inside the header range; file names below 32 characters except in the runs that probe the name fields (known finding hdfimport-file-name-buffer); pixel values are compared with the formula only where no expansion takes place, otherwise with the images of the same file imported alone"],
     ),
     "C05": dict(
